@@ -22,7 +22,7 @@ RULE = ('inputs: corpus, Annex A derivations in 5 layouts (one alternative force
 ASSUMPTIONS = ['inputs the real parser rejects are skipped (C03/C04 report those); "any conforming ES5 parser" is '
                'checked with refjs only for inputs refjs itself reads as the same tree (else input_not_es5)',
                'nesting depth is bounded (RecursionError in the recursive printers is a resource limit)']
-BUDGET_S = {'quick': 70, 'thorough': 900}
+BUDGET_S = {'quick': 120, 'thorough': 900}
 REQUIRED_HITS = ['pretty_print', 'reparse', 'fixpoint_compared', 'reference_reread', 'used_printer']
 FLOOR = {'quick': 3000, 'thorough': 40000}
 
